@@ -9,6 +9,7 @@ import enum
 import inspect
 import logging
 import re
+import types
 from abc import ABCMeta, abstractmethod
 from typing import (
     Any,
@@ -107,9 +108,22 @@ def _get_import_for_qualname(qualname: str) -> str:
     return qualname.split(".")[0]
 
 
+# `list[C]` (PEP 585) and `C | None` (PEP 604), as found in existing source annotations
+_BUILTIN_ALIAS_TYPES = tuple(
+    t
+    for t in (getattr(types, "GenericAlias", None), getattr(types, "UnionType", None))
+    if t is not None
+)
+
+
 def get_imports_for_annotation(anno: Any) -> ImportMap:
     """Return the imports (module, name) needed for the type in the annotation"""
     imports = ImportMap()
+    if isinstance(anno, _BUILTIN_ALIAS_TYPES):
+        # nothing to import for the builtin itself, but its arguments are rendered too
+        for et in getattr(anno, "__args__", None) or []:
+            imports.merge(get_imports_for_annotation(et))
+        return imports
     if (
         anno is inspect.Parameter.empty
         or anno is inspect.Signature.empty
